@@ -62,6 +62,9 @@ def gen_plain(rng, ci, j, keys, big_n, target, in_block=False):
     k = rng.choice(keys)
     if not in_block and rng.random() < 0.06:
         return {'op': 'close'}     # a thread (or process) closing its connection never disturbs another client's block
+    if rng.random() < 0.05:
+        # a settings update, also in the middle of a block (the documented way to switch culling off for a bulk load)
+        return {'op': 'reset', 'key': 'cull_limit', 'value': rng.choice((0, 10, 7))}
     if target == 'index':
         name = rng.choice(('setitem', 'setitem', 'getitem', 'delitem', 'ipop', 'setdefault', 'contains', 'len'))
         op = {'op': name}
